@@ -213,13 +213,16 @@ class Monitor:
         return probs
 
     def classify(self, r, actual, kind):
-        for (run_no, sh, how) in reversed(self.history):
-            if sh[r] == actual:
-                if run_no < self.run_no:
-                    return f"C09:stale-prev-state:cross-run:{kind}"
-                return f"C09:stale-prev-state:earlier-pause-of-same-run:{kind}"
-        if r in self.safe and actual == self.safe[r]:
-            return f"C09:left-at-safe-value:{r}:{kind}"
+        # facts, most specific first: the value of a paused period that was never undone (its run ended while paused);
+        # the safe value; the value of an earlier, already undone pause; a value this run never produced
+        for never_undone in (True, False):
+            if not never_undone and r in self.safe and actual == self.safe[r]:
+                return f"C09:left-at-safe-value:{r}:{kind}"
+            for (run_no, sh, how) in reversed(self.history):
+                if sh[r] == actual and (how == "run-ended") == never_undone:
+                    if run_no < self.run_no:
+                        return f"C09:stale-prev-state:cross-run:{kind}"
+                    return f"C09:stale-prev-state:earlier-pause-of-same-run:{kind}"
         if actual not in self.seen_run.get(r, ()) and any(run_no < self.run_no for (run_no, _, _) in self.history):
             # a value this run never produced, and an earlier run had a paused period
             return f"C09:stale-prev-state:cross-run:{kind}"
